@@ -228,7 +228,11 @@ func (c CompilerConfig) String() string {
 }
 
 func (c CompilerConfig) New() *compiler.Compiler {
-	cc := compiler.New()
+	return c.ApplyTo(compiler.New())
+}
+
+// ApplyTo configures an existing compiler (possibly configured differently before).
+func (c CompilerConfig) ApplyTo(cc *compiler.Compiler) *compiler.Compiler {
 	if c.Pretty {
 		var opts []compiler.PrettyPrintOption
 		if c.Indent < 0 {
